@@ -96,3 +96,15 @@ prop("C20", module="MW.Props.C20", title="bindings wire-compatible, type URLs ca
      level_text="Generic Lean theorems (varint / wire / per-level typed / Any round trips, all sizes) + table theorems decided by kernel evaluation over the schema regenerated from /repo's prost sources on every run (well-formedness, baseline, reference bindings, module tree, type URLs); the translator, the Lean wire codec and the prost attributes are cross-validated by a decode/re-encode differential on every compiled message type",
      technique="Lean 4 theorems over a schema regenerated from the source by a translator (decide +kernel over the whole table) + per-type prost differential",
      trusted_extra=["translator /verif/translator/proto_schema.py + generate.py", "pinned baseline of the initia/miniwasm wire schema"])
+
+prop("C14", module="MW.Props.C14", title="well-formed configuration, sectional updates",
+     variants=["instantiate", "update_config", "add_validator", "remove_validator"], state_keys=["config"],
+     pure=["validate_address_prefix", "validate_address", "validate_addresses", "validate_denom", "validate_ibc_denom", "channel_ok"],
+     weights={"update_config": 35, "validators": 15, "unauthorized": 6, "stake": 8, "resume": 4},
+     assumptions=["lengths are UTF-8 bytes (str::len()); 'listed twice' is string equality as in the code; bech32 0.9.1 decode accepts both checksum constants (modelled, compared by the differential)"])
+
+prop("C17", module="MW.Props.C17", title="complete pagination, consistent per-user index",
+     variants=[], state_keys=["batches", "requests", "ibc_queue", "reply_queue", "pending"],
+     weights={"unstake": 22, "withdraw": 16, "submit": 12, "deliver": 10, "stake": 14, "ack": 8, "timeout": 4},
+     profile={"queries": 0.5},
+     assumptions=["the model answers UnstakeRequests by filtering one request list (the specification); the upkeep of the real secondary index is covered differentially"])
